@@ -88,6 +88,9 @@ def cases(seed, tier):
         d = gen.scenario(rng, sched="sorted", kinds=("EVSE", "FR"), noise_p=0.2, constraint_free_p=0.08, nmax=7, sess_max=9,
                          sid_style="other_station", bind=rng.random() < 0.8, bkinds=("ideal", "l2c", "l2c", "l2s"),
                          seed=rng.randrange(1 << 20), sort=gen.SORTS[i % 5], algo=("greedy", "rr")[(i // 5) % 2])
+        if i % 2:
+            d["sessions"] = gen.dense_sessions(rng, d["network"], sid_other_p=0.25)
+            d["recompute"] = []
         out.append({"desc": d})
     return out
 
